@@ -354,7 +354,7 @@ deriving Repr
 	if cpm == nil {
 		return "", fmt.Errorf("CheckProposerMessage not found")
 	}
-	var elseList []ast.Stmt
+	var elseList, proposeList []ast.Stmt
 	var rootCheck string
 	for _, st := range cpm.Body.List {
 		is, ok := st.(*ast.IfStmt)
@@ -362,6 +362,7 @@ deriving Repr
 			continue
 		}
 		if g.ExprText(is.Cond) == "x.Header.Phase == Propose" {
+			proposeList = is.Body.List
 			if blk, ok := is.Else.(*ast.BlockStmt); ok {
 				elseList = blk.List
 			}
@@ -376,7 +377,7 @@ deriving Repr
 	// pure helpers over views declared in bft/msg.go that the branch calls
 	helperCalls := map[string]func([]string) (string, error){"bytes.Equal": bytesEq}
 	var helperTxt []string
-	for _, st := range elseList {
+	for _, st := range append(append([]ast.Stmt{}, elseList...), proposeList...) {
 		ast.Inspect(st, func(n ast.Node) bool {
 			ce, ok := n.(*ast.CallExpr)
 			if !ok {
@@ -408,6 +409,8 @@ deriving Repr
 	for k, v := range map[string]string{
 		"x.Qc.Header": "qc", "x.Header": "hdr", "p.blockHash == nil": "(!hasSaved)", "p.resultsHash == nil": "(!hasSaved)",
 		"x.Qc.BlockHash": "qcBlockHash", "x.Qc.ResultsHash": "qcResultsHash", "p.blockHash": "savedBlockHash", "p.resultsHash": "savedResultsHash",
+		"x.Signature.PublicKey": "sender", "p.proposerKey": "proposerKey", "x.Qc.ProposerKey": "qcProposer",
+		"x.Qc.Block == nil": "(!hasBlock)", "x.Qc.Results == nil": "(!hasResults)",
 	} {
 		elIdents[k] = v
 	}
@@ -420,11 +423,27 @@ deriving Repr
 	}
 	fmt.Fprintf(&b, `/-- bft/msg.go CheckProposerMessage, the branch for PRECOMMIT and COMMIT leader messages (after the certificate's
     signature and +2/3 were checked): qc = x.Qc.Header, hdr = x.Header, hasSaved = the replica holds a block for this
-    round (p.blockHash/p.resultsHash non-nil), hashes as abstract ids. none = accepted -/
-def leaderMsgChecks (qc hdr : View) (hasSaved : Bool) (qcBlockHash qcResultsHash savedBlockHash savedResultsHash : Nat) : Option String :=
+    round (p.blockHash/p.resultsHash non-nil), hashes and public keys as abstract ids (sender = x.Signature.PublicKey,
+    proposerKey = the leader the replica follows in this round, 0 = none yet). none = accepted -/
+def leaderMsgChecks (qc hdr : View) (sender proposerKey : Nat) (hasSaved : Bool) (qcBlockHash qcResultsHash savedBlockHash savedResultsHash : Nat) : Option String :=
 %s
 
 `, elBody)
+	prBody, err := elTr.Stmts(append(append([]ast.Stmt{}, proposeList...), &ast.ReturnStmt{Results: []ast.Expr{ast.NewIdent("nil")}}), "lib.ErrorI", "  ")
+	if err != nil {
+		return "", fmt.Errorf("CheckProposerMessage PROPOSE branch: %v", err)
+	}
+	fmt.Fprintf(&b, `/-- bft/msg.go CheckProposerMessage, the branch for PROPOSE messages: qc = x.Qc.Header (the ELECTION_VOTE certificate),
+    qcProposer = x.Qc.ProposerKey, hasBlock/hasResults = x.Qc.Block/x.Qc.Results non-nil. none = accepted -/
+def proposeMsgChecks (qc hdr : View) (sender qcProposer : Nat) (hasBlock hasResults : Bool) : Option String :=
+%s
+
+`, prBody)
+	var prSrc []string
+	for _, st := range proposeList {
+		prSrc = append(prSrc, fmt.Sprintf("%q", g.StmtText(st)))
+	}
+	fmt.Fprintf(&b, "def src_CheckProposerMessage_proposeBranch : List String := [%s]\n", strings.Join(prSrc, ", "))
 	// the header checks that precede the branch: wrong root height of the certificate, wrong height of the
 	// message, certificate older than the committee's last update
 	var preSrc []string
@@ -465,9 +484,12 @@ def src_CheckProposerMessage_headerChecks : List String := [%s]
 	fmt.Fprintf(&b, "def src_CheckProposerMessage_leaderBranch : List String := [%s]\n", strings.Join(elSrc, ", "))
 	fmt.Fprintf(&b, "/-- the certificate of a non-partial leader message must be from the replica's own root height -/\ndef src_CheckProposerMessage_rootCheck : String := %q\n", rootCheck)
 	// order fact: the view-binding check precedes the hash comparisons
-	bind, hash := -1, -1
+	bind, hash, snd := -1, -1, -1
 	for i, st := range elseList {
 		t := g.StmtText(st)
+		if snd < 0 && strings.Contains(t, "bytes.Equal(x.Signature.PublicKey, p.proposerKey)") {
+			snd = i
+		}
 		if bind < 0 && regexp.MustCompile(`^if !\w+\(x\.Qc\.Header, x\.Header\) \{ return false, `).MatchString(t) {
 			bind = i
 		}
@@ -475,7 +497,8 @@ def src_CheckProposerMessage_headerChecks : List String := [%s]
 			hash = i
 		}
 	}
-	fmt.Fprintf(&b, "/-- positions in the branch of the view-binding check and of the first hash comparison (-1 = absent) -/\ndef leaderBranch_bindIndex : Int := %d\ndef leaderBranch_hashIndex : Int := %d\n\n", bind, hash)
+	fmt.Fprintf(&b, "/-- positions in the branch of the view-binding check and of the first hash comparison (-1 = absent) -/\ndef leaderBranch_bindIndex : Int := %d\ndef leaderBranch_hashIndex : Int := %d\n/-- position of the check that the sender is the leader the replica follows (-1 = absent) -/\ndef leaderBranch_senderIndex : Int := %d\n\n", bind, hash, snd)
+	fmt.Fprintf(&b, "def src_validateMessageParams_proposerKey : Bool := %v\n", strings.Contains(g.StmtsText(msgF.FindFunc("BFT", "GetValidateMessageParams").Body.List), "proposerKey: b.ProposerKey"))
 
 	// ---- handleHighQCVDFAndEvidence: when a received HighQc replaces b.HighQC
 	hh := voteF.FindFunc("BFT", "handleHighQCVDFAndEvidence")
@@ -505,6 +528,70 @@ def src_CheckProposerMessage_headerChecks : List String := [%s]
 	}
 	fmt.Fprintf(&b, "/-- bft/vote.go handleHighQCVDFAndEvidence: `if %s { b.HighQC = vote.HighQc ... }` -/\ndef adoptHigher (hasLock : Bool) (lock new : View) : Bool := %s\n", g.ExprText(adopt.Cond), ae)
 	fmt.Fprintf(&b, "def src_adoptHigher_body : String := %q\n", g.StmtsText(bftDropStmts(adopt.Body.List, isLog)))
+
+	// ---- handleHighQCVDFAndEvidence: who processes the payload of an ELECTION_VOTE, and the lock must carry its proposal
+	var evBranch []ast.Stmt
+	for _, st := range hh.Body.List {
+		if is, ok := st.(*ast.IfStmt); ok && g.ExprText(is.Cond) == "vote.Qc.Header.Phase == ElectionVote" {
+			evBranch = is.Body.List
+		}
+	}
+	gateExpr, gateSrc, gateIdx := "false", "(guard absent from the source)", -1
+	missExpr, missSrc, missIdx := "false", "(check absent from the source)", -1
+	evIdents := bftCopyMap(idents)
+	for k, v := range map[string]string{"bytes.Equal(vote.Qc.ProposerKey, b.PublicKey)": "namesSelf", "vote.Qc.Header.Round": "voteRound", "b.Round": "round", "b.Phase": "phase",
+		"vote.HighQc.Block == nil": "(!hasBlock)", "vote.HighQc.Results == nil": "(!hasResults)"} {
+		evIdents[k] = v
+	}
+	evCalls := map[string]func([]string) (string, error){}
+	for i, st := range evBranch {
+		is, ok := st.(*ast.IfStmt)
+		if !ok {
+			continue
+		}
+		// the gate: `if !<pure predicate>(...) { return nil }`
+		if un, ok := is.Cond.(*ast.UnaryExpr); ok && g.StmtsText(is.Body.List) == "return nil" {
+			if ce, ok := un.X.(*ast.CallExpr); ok {
+				if id, ok := ce.Fun.(*ast.Ident); ok {
+					if fd := voteF.FindFunc("", id.Name); fd != nil {
+						htr := &g.Translator{Cfg: g.Config{Types: map[string]string{"bool": "Bool", "uint64": "Nat", "Phase": "Nat"}, Idents: bftCopyMap(idents), Calls: map[string]func([]string) (string, error){}}}
+						txt, err := htr.Func(fd, id.Name)
+						if err != nil {
+							return "", fmt.Errorf("bft/vote.go %s: %v", id.Name, err)
+						}
+						fmt.Fprintf(&b, "/-- bft/vote.go %s -/\n@[simp] %s\n", id.Name, txt)
+						evCalls[id.Name] = g.App(id.Name)
+						gtr := &g.Translator{Cfg: g.Config{Idents: evIdents, Calls: evCalls}}
+						if gateExpr, err = gtr.Expr(is.Cond); err != nil {
+							return "", fmt.Errorf("election vote gate %q: %v", g.ExprText(is.Cond), err)
+						}
+						gateSrc, gateIdx = g.StmtText(is), i
+					}
+				}
+			}
+		}
+		if g.ExprText(is.Cond) == "vote.HighQc != nil" {
+			for j, in := range is.Body.List {
+				if iis, ok := in.(*ast.IfStmt); ok && strings.Contains(g.ExprText(iis.Cond), "vote.HighQc.Block == nil") {
+					gtr := &g.Translator{Cfg: g.Config{Idents: evIdents, Calls: evCalls}}
+					var err error
+					if missExpr, err = gtr.Expr(iis.Cond); err != nil {
+						return "", fmt.Errorf("HighQc proposal check %q: %v", g.ExprText(iis.Cond), err)
+					}
+					missSrc, missIdx = g.StmtText(iis), j
+				}
+			}
+		}
+	}
+	fmt.Fprintf(&b, `/-- bft/vote.go handleHighQCVDFAndEvidence, ELECTION_VOTE branch, statement %d: `+"`%s`"+` (true = the payload — lock, VDF, evidence — is
+    ignored and the vote only counted). namesSelf = bytes.Equal(vote.Qc.ProposerKey, b.PublicKey) -/
+def electionVoteIgnored (namesSelf : Bool) (voteRound round phase : Nat) : Bool := %s
+def electionVoteGate_index : Int := %d
+/-- statement %d inside `+"`if vote.HighQc != nil`: `%s`"+` (true = rejected: the lock does not carry its proposal) -/
+def highQcMissingProposal (hasBlock hasResults : Bool) : Bool := %s
+def highQcProposalCheck_index : Int := %d
+
+`, gateIdx, gateSrc, gateExpr, gateIdx, missIdx, missSrc, missExpr, missIdx)
 
 	// ---- NewHeight / NewRound (facts: what a reset keeps)
 	for _, fn := range []string{"NewHeight", "NewRound"} {
